@@ -83,6 +83,37 @@ class Tok:
         return '+'.join(map(str, self.parts)) if self.parts else "''"
 
 
+class MList(list):
+    """A list object created by the evaluated code.  Appends are applied to it; `unknown` means it may hold further
+    (unknown) elements behind the known ones, because it is filled inside a loop or handed to code that is not followed."""
+
+    __hash__ = None  # type: ignore[assignment]
+
+    def __init__(self, items: Any = (), ident: str = 'list') -> None:
+        super().__init__(items)
+        self.ident = ident
+        self.unknown = False
+
+    def forget(self) -> None:
+        del self[:]
+        self.unknown = True
+
+
+class MSet:
+    """A set object created by the evaluated code (`set()`): members added so far, possibly more."""
+
+    def __init__(self, items: Any = (), ident: str = 'set') -> None:
+        self.items = list(items)
+        self.ident = ident
+        self.unknown = False
+
+
+@dataclass
+class BoundBuiltin:
+    obj: Any
+    attr: str
+
+
 @dataclass
 class Obj:
     cls: tuple[str, str] | None  # (module, class)
@@ -108,6 +139,9 @@ class Path:
     yields: list[Any] = field(default_factory=list)
     events: list[tuple] = field(default_factory=list)  # ('call'|'yield'|'store'|'return'|'raise', ...), in execution order
 
+    def of(self, kind: str) -> list[tuple]:
+        return [e for e in self.events if e[0] == kind]
+
     def calls_to(self, pred: Any) -> list[tuple]:
         """[(name, args, kwargs, ctx)] of call events whose callee name satisfies pred (str or callable)."""
         f = (lambda n: n == pred) if isinstance(pred, str) else pred
@@ -123,7 +157,7 @@ class SymEval:
                  call_models: dict[str, Callable] | None = None,
                  atom_map: Callable[[ast.AST, 'Frame'], str | None] | None = None,
                  inline: bool = True, max_paths: int = 4096, watch_calls: bool = False,
-                 no_inline: set[str] | None = None, inline_only: set[str] | None = None) -> None:
+                 no_inline: set[str] | None = None, inline_only: set[str] | None = None, loop_mode: str = 'once') -> None:
         self.repo = repo
         self.bitnames = bitnames or default_bitnames(repo)
         self.call_models = call_models or {}
@@ -133,12 +167,14 @@ class SymEval:
         self.watch_calls = watch_calls
         self.no_inline = no_inline or set()
         self.inline_only = inline_only
+        self.loop_mode = loop_mode  # 'once': run the body once from an arbitrary iteration; 'skip': only forget what it changes
         self.decisions: dict[str, bool] = {}
         self.used: list[str] = []
         self.calls: list = []
         self.yields: list = []
         self.events: list = []
         self.ctx: list = []
+        self.fresh: dict[str, int] = {}
         self.depth = 0
 
     # ------------------------------------------------------------------ driver
@@ -151,10 +187,12 @@ class SymEval:
             if len(paths) + len(stack) > self.max_paths:
                 raise AnalysisError(f'decision table of {fn.fq} exceeds {self.max_paths} paths')
             self.decisions = dec
+            _CURRENT[0] = dec
             self.calls = []
             self.yields = []
             self.events = []
             self.ctx = []
+            self.fresh = {}
             obj = None
             if self_obj is not None:
                 obj = Obj(self_obj.cls, dict(self_obj.attrs), self_obj.name, self_obj.default_attr)
@@ -194,6 +232,11 @@ class SymEval:
                         val |= bit
             return BV(v.origin, val, known)
         return v
+
+    def new_ident(self, kind: str) -> str:
+        k = self.fresh.get(kind, 0) + 1
+        self.fresh[kind] = k
+        return f'{kind}#{k}'
 
     def decide(self, atom: str) -> bool:
         if atom in self.decisions:
@@ -351,13 +394,64 @@ class Frame:
             self.ev.ctx.append(f'for:{_tag(it)}')
         else:
             self.ev.ctx.append('while')
+        tag = f'loop@{norm_src(st.target) if isinstance(st, ast.For) else "while"}'
+        # an arbitrary iteration: whatever the body (re)binds has an unknown value on entry
+        bound: set[str] = set()
+        battrs: set[str] = set()
+        for x in _walk_stmts(st.body):
+            if isinstance(x, ast.Name) and isinstance(x.ctx, ast.Store):
+                bound.add(x.id)
+            elif isinstance(x, ast.Attribute) and isinstance(x.ctx, ast.Store) and isinstance(x.value, ast.Name) and \
+                    x.value.id == 'self':
+                battrs.add(x.attr)
+        tgt_names = {x.id for x in ast.walk(st.target) if isinstance(x, ast.Name)} if isinstance(st, ast.For) else set()
+        for k in bound - tgt_names:
+            if k in self.locals and not isinstance(self.locals[k], Obj):
+                self.locals[k] = Opaque(f'{tag}:{k}')
+        if self.self_obj:
+            for k in battrs:
+                if k in self.self_obj.attrs:
+                    self.self_obj.attrs[k] = Opaque(f'{tag}:self.{k}')
+        touched: set[str] = set()
+        for x in _walk_stmts(st.body):
+            if isinstance(x, ast.Call):
+                if isinstance(x.func, ast.Attribute) and x.func.attr in LIST_MUTATORS:
+                    touched.add(norm_src(x.func.value))
+                for a_ in list(x.args) + [k.value for k in x.keywords]:
+                    if isinstance(a_, (ast.Name, ast.Attribute)):
+                        touched.add(norm_src(a_))
+            elif isinstance(x, ast.Subscript) and isinstance(x.ctx, (ast.Store, ast.Del)):
+                touched.add(norm_src(x.value))
+        for t in touched:
+            try:
+                v = self.locals.get(t) if t.isidentifier() else (
+                    self.self_obj.attrs.get(t[5:]) if self.self_obj and t.startswith('self.') and t[5:].isidentifier() else None)
+            except Exception:
+                v = None
+            if isinstance(v, (MList, MSet)):
+                v.unknown = True
+        if self.ev.loop_mode == 'skip':
+            self.ev.ctx.pop()
+            self.ev.events.append(('loop', st, tuple(self.ev.ctx)))
+            for k in bound:
+                if k in self.locals and not isinstance(self.locals[k], Obj):
+                    self.locals[k] = Opaque(f'{tag}:{k}')
+            return
+        if isinstance(st, ast.While):
+            try:
+                if not self.truth(st.test):
+                    self.ev.ctx.pop()
+                    if st.orelse:
+                        self.block(st.orelse)
+                    return
+            except AnalysisError:
+                pass
         try:
             self.block(st.body)
         except (_Break, _Continue):
             pass
         finally:
             self.ev.ctx.pop()
-        tag = f'loop@{norm_src(st.target) if isinstance(st, ast.For) else "while"}'
         for k, v in list(self.locals.items()):
             if k in before and before[k] != v and not isinstance(v, Obj):
                 self.locals[k] = Opaque(f'{tag}:{k}')
@@ -385,7 +479,9 @@ class Frame:
                 for i, tt in enumerate(t.elts):
                     self.assign(tt, Opaque(f'{_tag(v)}[{i}]'))
         elif isinstance(t, ast.Subscript):
-            return
+            base = self.eval(t.value)
+            idx = self.eval(t.slice) if not isinstance(t.slice, ast.Slice) else Opaque(norm_src(t.slice))
+            self.ev.events.append(('setitem', base, idx, v, t, tuple(self.ev.ctx)))
         else:
             raise AnalysisError(f'assign target {type(t).__name__}')
 
@@ -421,6 +517,14 @@ class Frame:
             return self.ev.decide(tag)
         if isinstance(v, Tok):
             return bool(v.parts)
+        if isinstance(v, MList):
+            if len(v):
+                return True
+            return self.ev.decide(f'nonempty({v.ident})') if v.unknown else False
+        if isinstance(v, MSet):
+            if v.items:
+                return True
+            return self.ev.decide(f'nonempty({v.ident})') if v.unknown else False
         if isinstance(v, (Obj, BoundMethod, FuncRef, ClassRef, ModRef, ExtRef, RegexConst)):
             return True
         return bool(v)
@@ -486,13 +590,15 @@ class Frame:
             return ExtRef(base.module + '.' + base.name, n.attr)
         if isinstance(base, RegexConst) and n.attr == 'pattern':
             return base.pattern
+        if isinstance(base, (MList, MSet)):
+            return BoundBuiltin(base, n.attr)
         return Opaque(f'{_tag(base)}.{n.attr}')
 
     def x_Tuple(self, n: ast.Tuple) -> Any:
         return tuple(self.eval(e) for e in n.elts)
 
     def x_List(self, n: ast.List) -> Any:
-        return [self.eval(e) for e in n.elts]
+        return MList([self.eval(e) for e in n.elts], self.ev.new_ident('list'))
 
     def x_Set(self, n: ast.Set) -> Any:
         vals = [self.eval(e) for e in n.elts]
@@ -574,6 +680,24 @@ class Frame:
         return self.binop(n.op, self.eval(n.left), self.eval(n.right), n)
 
     def binop(self, op: ast.operator, a: Any, b: Any, node: ast.AST) -> Any:
+        if isinstance(a, MSet) or isinstance(b, MSet):
+            def conc(x: Any) -> Any:
+                if isinstance(x, MSet):
+                    if x.unknown:
+                        return None
+                    try:
+                        return frozenset(x.items)
+                    except TypeError:
+                        return None
+                return x if isinstance(x, frozenset) else None
+            ca, cb = conc(a), conc(b)
+            if ca is not None and cb is not None and isinstance(op, (ast.BitOr, ast.BitAnd, ast.Sub, ast.BitXor)):
+                return {ast.BitOr: ca | cb, ast.BitAnd: ca & cb, ast.Sub: ca - cb, ast.BitXor: ca ^ cb}[type(op)]
+            return Opaque(f'({_tag(a)}{_opsym(op)}{_tag(b)})')
+        if isinstance(a, list) and isinstance(b, list) and isinstance(op, ast.Add):
+            r = MList(list(a) + list(b), self.ev.new_ident('list'))
+            r.unknown = getattr(a, 'unknown', False) or getattr(b, 'unknown', False)
+            return r
         bitop = isinstance(op, (ast.BitOr, ast.BitAnd, ast.BitXor))
         if bitop and (isinstance(a, BV) or isinstance(b, BV)):
             if isinstance(a, bool) or isinstance(b, bool):
@@ -590,8 +714,9 @@ class Frame:
                 raise AnalysisError(f'{self.fn.fq}: bit operation mixes two symbolic flag words')
             return self._bv_op(op, a, b, origin)
         if isinstance(a, (Opaque, Obj)) or isinstance(b, (Opaque, Obj)):
-            if isinstance(op, ast.Add) and (isinstance(a, (Tok, str)) or isinstance(b, (Tok, str))):
-                return _tok_of(a) + _tok_of(b) if False else Tok(_parts(a) + _parts(b))
+            if isinstance(op, ast.Add) and (isinstance(a, (Tok, str)) or isinstance(b, (Tok, str)) or
+                                            (isinstance(a, Opaque) and isinstance(b, Opaque))):
+                return Tok(_parts(a) + _parts(b))
             return Opaque(f'({_tag(a)}{_opsym(op)}{_tag(b)})')
         if isinstance(a, Tok) or isinstance(b, Tok):
             if isinstance(op, ast.Add):
@@ -664,6 +789,16 @@ class Frame:
         return result
 
     def compare(self, op: ast.cmpop, a: Any, b: Any, node: ast.AST) -> bool:
+        if isinstance(op, (ast.In, ast.NotIn)) and isinstance(b, (MSet, MList)) and (isinstance(b, MSet) or b.unknown or
+                                                                                   isinstance(a, (Opaque, BV, Tok, Obj))):
+            items = b.items if isinstance(b, MSet) else list(b)
+            if any(x == a for x in items):
+                r = True
+            elif not items and not b.unknown:
+                r = False
+            else:
+                r = self.ev.decide(f'{_tag(a)} in {b.ident}')
+            return r if isinstance(op, ast.In) else not r
         sym = (Opaque, BV, Obj)
         if isinstance(op, (ast.Is, ast.IsNot)) and (b is None or a is None):
             other = a if b is None else b
@@ -692,6 +827,22 @@ class Frame:
             neg = isinstance(op, (ast.NotEq, ast.NotIn, ast.IsNot))
             base = {ast.NotEq: '==', ast.Eq: '==', ast.In: 'in', ast.NotIn: 'in', ast.Is: 'is', ast.IsNot: 'is',
                     ast.Lt: '<', ast.LtE: '<=', ast.Gt: '>', ast.GtE: '>='}[type(op)]
+            if base == 'in' and isinstance(a, Opaque) and isinstance(b, (tuple, list, frozenset)) and 0 < len(b) <= 8 and \
+                    all(isinstance(x, (str, bytes, int)) for x in b):
+                # membership in a small constant collection = disjunction of equalities (same atoms as `x == a or x == b`)
+                r = any(self.compare(ast.Eq(), a, x, node) for x in (sorted(b, key=repr) if isinstance(b, frozenset) else b))
+                return (not r) if neg else r
+            if base == '==' and isinstance(b, Opaque) and isinstance(a, (str, bytes, int)):
+                a, b = b, a
+            if base == '==' and isinstance(a, Opaque) and isinstance(b, (str, bytes, int)):
+                # a value equals at most one constant: once `x == k` holds, `x == k2` is false without a new decision
+                pre = f'{_tag(a)} == '
+                me = f'{pre}{_tag(b)}'
+                if me not in self.ev.decisions and any(k.startswith(pre) and v for k, v in self.ev.decisions.items()):
+                    r = False
+                else:
+                    r = self.ev.decide(me)
+                return (not r) if neg else r
             r = self.ev.decide(f'{_tag(a)} {base} {_tag(b)}')
             return (not r) if neg else r
         if isinstance(a, Tok) or isinstance(b, Tok):
@@ -714,10 +865,17 @@ class Frame:
         if isinstance(n.slice, ast.Slice):
             lo = self.eval(n.slice.lower) if n.slice.lower else None
             hi = self.eval(n.slice.upper) if n.slice.upper else None
+            if isinstance(base, MList) and base.unknown:
+                return Opaque(f'{base.ident}[{"" if lo is None else _tag(lo)}:{"" if hi is None else _tag(hi)}]')
             if isinstance(base, (str, bytes, tuple, list)) and all(x is None or isinstance(x, int) for x in (lo, hi)):
-                return base[lo:hi]
+                r = base[lo:hi]
+                return MList(r, self.ev.new_ident('list')) if isinstance(base, MList) else r
             return Opaque(f'{_tag(base)}[{"" if lo is None else _tag(lo)}:{"" if hi is None else _tag(hi)}]')
         idx = self.eval(n.slice)
+        if isinstance(base, MList) and base.unknown:
+            if isinstance(idx, int) and not isinstance(idx, bool) and 0 <= idx < len(base):
+                return base[idx]
+            return Opaque(f'{base.ident}[{_tag(idx)}]')
         if isinstance(base, (tuple, list, str, bytes, dict)) and not isinstance(idx, (Opaque, BV, Tok, Obj)):
             try:
                 return base[idx]
@@ -806,17 +964,38 @@ class Frame:
                 return self.ev.decide(f'isinstance({_tag(v)}, {ty})')
             if f.id == 'len':
                 v = self.eval(n.args[0])
+                if isinstance(v, (MList, MSet)):
+                    if v.unknown:
+                        return Opaque(f'len({v.ident})')
+                    return len(v) if isinstance(v, MList) else Opaque(f'len({v.ident})')
                 if isinstance(v, (str, bytes, tuple, list, frozenset, dict)):
                     return len(v)
                 return Opaque(f'len({_tag(v)})')
             if f.id in ('set', 'frozenset', 'list', 'tuple') and len(n.args) <= 1:
                 if not n.args:
-                    return {'set': frozenset(), 'frozenset': frozenset(), 'list': [], 'tuple': ()}[f.id]
+                    if f.id == 'set':
+                        return MSet((), self.ev.new_ident('set'))
+                    if f.id == 'list':
+                        return MList((), self.ev.new_ident('list'))
+                    return {'frozenset': frozenset(), 'tuple': ()}[f.id]
                 v = self.eval(n.args[0])
+                if isinstance(v, (MList, MSet)) and v.unknown:
+                    return Opaque(f'{f.id}({v.ident})')
+                if isinstance(v, MSet):
+                    return Opaque(f'{f.id}({v.ident})')
                 try:
-                    return {'set': frozenset, 'frozenset': frozenset, 'list': list, 'tuple': tuple}[f.id](v)
+                    r = {'set': frozenset, 'frozenset': frozenset, 'list': list, 'tuple': tuple}[f.id](v)
+                    return MList(r, self.ev.new_ident('list')) if f.id == 'list' else r
                 except TypeError:
                     return Opaque(f'{f.id}({_tag(v)})')
+        if isinstance(f, ast.Name) and f.id == 'next' and f.id not in self.locals and f.id not in self.mod.env and n.args:
+            # every read of an iterator is a fresh value
+            a0 = [self.eval(a) for a in n.args]
+            base = f'next({", ".join(_tag(a) for a in a0)})'
+            k = self.ev.fresh.get(base, 0) + 1
+            self.ev.fresh[base] = k
+            self.ev.events.append(('call', 'next', a0, {}, n, tuple(self.ev.ctx)))
+            return Opaque(base if k == 1 else f'{base}#{k}')
         if isinstance(f, ast.Name) and f.id in ('any', 'all') and f.id not in self.locals and len(n.args) == 1 and \
                 isinstance(n.args[0], (ast.GeneratorExp, ast.ListComp)):
             inner = self.comprehension(n.args[0])
@@ -836,7 +1015,23 @@ class Frame:
                 except (IndexError, KeyError):
                     pass
         target = self.eval(f)
+        if isinstance(target, BoundBuiltin):
+            name = f'{target.obj.ident}.{target.attr}'
+            if self.ev.watch_calls:
+                self.ev.calls.append((n, name, args, kwargs))
+            self.ev.events.append(('call', name, args, kwargs, n, tuple(self.ev.ctx)))
+            return self._builtin_effect(target.obj, target.attr, args)
         name = self._callee_name(f, target)
+        # a container handed to code that is not followed may be changed by it
+        if not (isinstance(target, (BoundMethod, FuncRef)) and self.ev.inline and name not in self.ev.no_inline and
+                (self.ev.inline_only is None or name in self.ev.inline_only)) and name not in self.ev.call_models and \
+                name not in PURE_CALLEES and not isinstance(target, ExtRef) and \
+                not (isinstance(f, ast.Name) and f.id not in self.locals and f.id not in self.mod.env):
+            for a_ in list(args) + list(kwargs.values()):
+                if isinstance(a_, MList):
+                    a_.unknown = True
+                elif isinstance(a_, MSet):
+                    a_.unknown = True
         if self.ev.watch_calls:
             self.ev.calls.append((n, name, args, kwargs))
         self.ev.events.append(('call', name, args, kwargs, n, tuple(self.ev.ctx)))
@@ -862,6 +1057,44 @@ class Frame:
                             ''.join(f', {k}={_tag(v)}' for k, v in kwargs.items()) + ')',))
         return Opaque(f'{name}(' + ', '.join([_tag(a) for a in args] + [f'{k}={_tag(v)}' for k, v in kwargs.items()]) + ')')
 
+    def _builtin_effect(self, obj: Any, attr: str, args: list) -> Any:
+        if isinstance(obj, MSet):
+            if attr == 'add' and len(args) == 1:
+                obj.items.append(args[0])
+                return None
+            if attr in ('update',):
+                obj.unknown = True
+                return None
+            if attr in ('discard', 'remove', 'clear', 'pop'):
+                obj.items = []
+                obj.unknown = True
+                return Opaque(f'{obj.ident}.{attr}()') if attr == 'pop' else None
+            return Opaque(f'{obj.ident}.{attr}(' + ', '.join(_tag(a) for a in args) + ')')
+        if attr == 'append' and len(args) == 1:
+            if obj.unknown:
+                pass  # order behind unknown elements is not tracked: stays "known prefix + unknown rest"
+            else:
+                list.append(obj, args[0])
+            return None
+        if attr == 'extend' and len(args) == 1:
+            if isinstance(args[0], (list, tuple)) and not getattr(args[0], 'unknown', False) and not obj.unknown:
+                list.extend(obj, args[0])
+            else:
+                obj.unknown = True
+            return None
+        if attr == 'copy' and not args:
+            c = MList(list(obj), self.ev.new_ident('list'))
+            c.unknown = obj.unknown
+            return c
+        if attr in ('index', 'count'):
+            return Opaque(f'{obj.ident}.{attr}(' + ', '.join(_tag(a) for a in args) + ')')
+        if attr == 'pop' and not args and not obj.unknown and len(obj):
+            return list.pop(obj)
+        if attr in ('pop', 'insert', 'remove', 'clear', 'sort', 'reverse'):
+            obj.forget()
+            return Opaque(f'{obj.ident}.{attr}()') if attr == 'pop' else None
+        return Opaque(f'{obj.ident}.{attr}(' + ', '.join(_tag(a) for a in args) + ')')
+
     def _callee_name(self, f: ast.AST, target: Any) -> str:
         if isinstance(target, BoundMethod):
             return target.fn.fq
@@ -885,6 +1118,43 @@ class Frame:
         return fr.run()
 
 
+LIST_MUTATORS = {'append', 'extend', 'insert', 'pop', 'remove', 'clear', 'add', 'update', 'discard', 'sort', 'reverse'}
+PURE_CALLEES = {'len', 'str', 'bool', 'isinstance', 'tuple', 'list', 'set', 'frozenset', 'sorted', 'any', 'all', 'iter', 'enumerate', 'zip',
+                'min', 'max', 'sum', 'repr', 'type', 'id', 'os.fspath', "''.join", 'os.path.join', 're.escape'}
+
+
+def _walk_stmts(body: list) -> Any:
+    todo = list(body)
+    while todo:
+        n = todo.pop()
+        if isinstance(n, (ast.FunctionDef, ast.AsyncFunctionDef, ast.ClassDef, ast.Lambda)):
+            continue
+        yield n
+        todo.extend(ast.iter_child_nodes(n))
+
+
+_CURRENT: list[dict] = [{}]  # decisions of the evaluation in progress (read by _tag)
+
+
+def focus(p: 'Path') -> None:
+    """Make `_tag` name flag words relative to this path's decisions (call before computing tags of a path's values)."""
+    _CURRENT[0] = p.decisions
+
+
+def concrete(v: Any) -> Any:
+    """Plain value of a fully known container (MSet -> frozenset, MList -> list); anything else unchanged."""
+    if isinstance(v, MSet) and not v.unknown:
+        try:
+            return frozenset(v.items)
+        except TypeError:
+            return v
+    if isinstance(v, MList) and not v.unknown:
+        return [concrete(x) for x in v]
+    if isinstance(v, tuple):
+        return tuple(concrete(x) for x in v)
+    return v
+
+
 def _as_load(t: ast.AST) -> ast.AST:
     import copy
     t2 = copy.deepcopy(t)
@@ -898,13 +1168,27 @@ def _tag(v: Any) -> str:
     if isinstance(v, Opaque):
         return v.tag
     if isinstance(v, BV):
-        return f'bv({v.origin},val={v.val:#x},known={v.known:#x})'
+        # canonical with respect to the decisions taken so far: a bit that merely carries its decided value is "passed through"
+        agree = 0
+        for atom, d in _CURRENT[0].items():
+            if atom.startswith(f'bit:{v.origin}:'):
+                bit = int(atom.rsplit(':', 1)[1], 16)
+                if v.known & bit and bool(v.val & bit) == d:
+                    agree |= bit
+        known = v.known & ~agree
+        return f'bv({v.origin},val={v.val & known:#x},known={known:#x})'
     if isinstance(v, Obj):
         return v.name
     if isinstance(v, Tok):
         return repr(v)
     if isinstance(v, BoundMethod):
         return v.fn.fq
+    if isinstance(v, (MList, MSet)):
+        if isinstance(v, MList) and not v.unknown:
+            return '[' + ', '.join(_tag(x) for x in v) + ']'
+        return v.ident
+    if isinstance(v, BoundBuiltin):
+        return f'{_tag(v.obj)}.{v.attr}'
     if isinstance(v, frozenset):
         return '{' + ', '.join(sorted(map(repr, v))) + '}'
     return repr(v)
